@@ -40,7 +40,7 @@ AStart == /\ phase = "build" /\ Depth(prog) = 0 /\ phase' = "page" /\ UNCHANGED 
 
 \* the property list of BDC / DP: one entry, /MCID n or /Lang (string)
 Props(op) == IF op.o \in {"BMC", "MP"} THEN <<>>
-             ELSE IF op.pv = <<>> THEN QAttr(bID, <<403>>)
+             ELSE IF op.pv = <<>> THEN QAttr(bID, <<1900003>>)
              ELSE QAttr(bLANG, IF "TagPropRaw" \in dev THEN op.pv ELSE Enc(op.pv))
 BeginTag(op) == OpenTag(op.tag, Props(op))
 ABeginPage == /\ phase = "page" /\ phase' = "run"
